@@ -632,3 +632,62 @@ Definition mon_xdisjoint (ps : list (cfg * pool)) : bool :=
   forallb (fun x => forallb (fun y =>
       ((fst (fst x) =? fst (fst y)) && (snd (fst x) =? snd (fst y))) || negb (overlap (snd x) (snd y)))
     (mall_blocks ps)) (mall_blocks ps).
+
+(* ---------------------------------------------------------------- event entry points and the restore-window queue *)
+(* component.go: handleSessionLifecycle / handleSessionProgrammed / handleSessionRestored -> maybeEnqueue ->
+   dispatchLifecycle / dispatchProgrammed / dispatchRestored, drainQueue.  Until drainQueue has run (Start: reconcile,
+   restoreFromOpDB, then drainQueue) every event is queued, at most [queue_bound] of them; afterwards events are
+   dispatched at once. *)
+Inductive sstate := SActive | SReleased | SOtherState.
+Inductive saccess := AIPoE | APPPoE | AOtherAccess.
+Inductive ev :=
+| ELifecycle (st : sstate) (acc : saccess) (sid k : N) (dl : list bool)   (* TopicSessionLifecycle *)
+| EProgrammed (acc : saccess) (sid k : N) (dp_ok : bool)                   (* TopicSessionProgrammed *)
+| ERestored (acc : saccess) (sid k : N) (dp_ok : bool)                     (* TopicSessionRestored *)
+| EBadPayload.                                                             (* Data of another type *)
+Definition pba_access (a : saccess) : bool := match a with AOtherAccess => false | _ => true end.
+
+(* what one dispatched event does.  A lifecycle event in state Active never activates anything: IPoE and PPPoE are
+   filtered (they are activated by the Programmed / Restored events) and other access types have no handler. *)
+Definition dispatch (v : variant) (c : cfg) (s : comp) (e : ev) (obs : option block) : comp * out :=
+  match e with
+  | ELifecycle SReleased acc sid k dl => if pba_access acc then cstep v c s (CRelease sid k dl) else (s, ROk)
+  | ELifecycle _ _ _ _ _ => (s, ROk)
+  | EProgrammed acc sid k dp_ok => if pba_access acc then cstep v c s (CActivate sid k dp_ok obs) else (s, ROk)
+  | ERestored acc sid k dp_ok => if pba_access acc then cstep v c s (CActivate sid k dp_ok obs) else (s, ROk)
+  | EBadPayload => (s, ROk)
+  end.
+
+Definition queue_bound : nat := 4096.
+Record ecomp := { e_comp : comp; e_drained : bool; e_queue : list ev; e_dropped : N }.
+Definition ecomp_init (p : pool) : ecomp := {| e_comp := comp_init p; e_drained := false; e_queue := []; e_dropped := 0 |}.
+Definition is_release (e : ev) : bool := match e with ELifecycle SReleased _ _ _ _ => true | _ => false end.
+
+Inductive eop :=
+| EvDeliver (e : ev) (obs : option block)      (* the bus hands e to the component *)
+| EvDrain (obsl : list (option block))         (* drainQueue; obsl: one observed block per queued event *)
+| EvDirect (o : cop).                          (* restoreFromOpDB records etc. *)
+
+Fixpoint drain_all (v : variant) (c : cfg) (s : comp) (q : list ev) (obsl : list (option block)) : comp :=
+  match q with
+  | [] => s
+  | e :: r => drain_all v c (fst (dispatch v c s e (hd None obsl))) r (tl obsl)
+  end.
+
+(* v_queue (variant flag): a Released event is queued even when the queue is full *)
+Definition estep (vq : bool) (v : variant) (c : cfg) (s : ecomp) (o : eop) : ecomp :=
+  match o with
+  | EvDeliver e obs =>
+      if e_drained s then
+        {| e_comp := fst (dispatch v c (e_comp s) e obs); e_drained := true; e_queue := e_queue s; e_dropped := e_dropped s |}
+      else if (queue_bound <=? length (e_queue s))%nat && negb (vq && is_release e) then
+        {| e_comp := e_comp s; e_drained := false; e_queue := e_queue s; e_dropped := e_dropped s + 1 |}
+      else
+        {| e_comp := e_comp s; e_drained := false; e_queue := e_queue s ++ [e]; e_dropped := e_dropped s |}
+  | EvDrain obsl =>
+      {| e_comp := drain_all v c (e_comp s) (e_queue s) obsl; e_drained := true; e_queue := []; e_dropped := e_dropped s |}
+  | EvDirect co =>
+      {| e_comp := fst (cstep v c (e_comp s) co); e_drained := e_drained s; e_queue := e_queue s; e_dropped := e_dropped s |}
+  end.
+Definition erun (vq : bool) (v : variant) (c : cfg) (s : ecomp) (ops : list eop) : ecomp :=
+  fold_left (estep vq v c) ops s.
